@@ -134,11 +134,26 @@ Theorem fsl_sound snaps : forall stale u,
   In u stale \/ exists unknown running ents, In (unknown, running, ents) snaps /\ In u (stale_locks ents running).
 Proof.
   induction snaps as [|[[unknown running] ents] r IH]; intros stale u; cbn [fix_stale_locks]; [auto|].
-  destruct unknown; cbn [negb]; [|auto].
+  destruct unknown; cbn [negb]; [|intros H; apply filter_In in H; left; tauto].
   destruct (stale_locks ents running) as [|x st] eqn:E; [intros []|].
   intros H. destruct (IH _ _ H) as [Hin|(a & b & c & Hin & Hu)].
   - right. exists true, running, ents. split; [left; reflexivity|]. rewrite E. exact Hin.
   - right. exists a, b, c. split; [right; exact Hin|exact Hu].
+Qed.
+(* F24 fixed: nothing that pool.Running() reports when the last unknown worker has become known is unlocked *)
+Theorem fsl_skips_running snaps : forall stale u,
+  In u (fix_stale_locks snaps stale) ->
+  forall pre running ents rest, snaps = pre ++ (false, running, ents) :: rest ->
+  Forall (fun sn => fst (fst sn) = true) pre -> rlook u running = None.
+Proof.
+  induction snaps as [|[[unknown running0] ents0] r IH]; intros stale u H pre running ents rest E Hpre.
+  - destruct pre; discriminate.
+  - destruct pre as [|p0 pre]; cbn [app] in E.
+    + injection E as -> -> -> ->. cbn [fix_stale_locks negb] in H. apply filter_In in H. destruct H as [_ H].
+      unfold not_running in H. destruct (rlook u running); [discriminate|reflexivity].
+    + injection E as <- E. apply Forall_cons_iff in Hpre. destruct Hpre as [Hp Hpre]. cbn [fst] in Hp. subst unknown.
+      cbn [fix_stale_locks negb] in H. destruct (stale_locks ents0 running0) as [|x st]; [destruct H|].
+      exact (IH _ _ H pre running ents rest E Hpre).
 Qed.
 Theorem stale_locks_spec ents running u :
   In u (stale_locks ents running) <->
@@ -166,10 +181,14 @@ Proof. reflexivity. Qed.
 Theorem fsl_timeout running ents x st :
   stale_locks ents running = x :: st -> fix_stale_locks [(true, running, ents)] [] = x :: st.
 Proof. intros H. cbn [fix_stale_locks negb]. rewrite H. reflexivity. Qed.
-(* ... and the defect-prone corner: if the last unknown worker becomes known between two looks, the list
-   of the PREVIOUS look is released, even for containers that have meanwhile been found running *)
-Example fsl_unlocks_outdated_list :
-  fix_stale_locks [(true, [], [mkent 7 Locked 5 0]); (false, [(7%N, 0)], [mkent 7 Locked 5 0])] [] = [7%N].
+(* the corner that used to be finding F24: the last unknown worker becomes known between two looks and
+   reports container 7 running: it is no longer unlocked ... *)
+Example fsl_recovered_not_unlocked :
+  fix_stale_locks [(true, [], [mkent 7 Locked 5 0]); (false, [(7%N, 0)], [mkent 7 Locked 5 0])] [] = [].
+Proof. reflexivity. Qed.
+(* ... whereas the code before commit 05ee31b did (regression witness about the OLD model) *)
+Example fsl_old_unlocked_outdated_list :
+  fix_stale_locks_old [(true, [], [mkent 7 Locked 5 0]); (false, [(7%N, 0)], [mkent 7 Locked 5 0])] [] = [7%N].
 Proof. reflexivity. Qed.
 
 (* ---------------- bounded convergence of the healthy round ---------------- *)
